@@ -92,6 +92,12 @@ CLAIMED = {
          'the right type and sf_command writes exactly those switches; no kernel truncates (all round through psf_lrint/psf_lrintf). Numeric results of individual values and the int<->int lane '
          'moves are not decided.',
          'AST fact extraction (folded constants, branch conditions, stores) checked against width formulas; partial evaluation for command wiring'),
+ 'C01': ('DESIGN.md §4 C01',
+         'Bit-lane proof (symbolic evaluation of one kernel iteration, valid for all sample values) that every integer PCM kernel reads / writes the documented bits in the documented byte order and '
+         'that float/double kernels use the same lanes; staging functions call the kernel of their own code with the matching element size; pcm_init / float32_init / double64_init install the '
+         'functions and swap flag their keys denote; every block codec that emits blocks only when full also emits the partial block from its close hook in write mode; close hooks rewrite the '
+         'header. ALAC / DWVW / DPCM / SDS / PAF bit-stream arithmetic and int<->float scaling round trips are not decided.',
+         'symbolic bit-lane abstract interpretation of conversion kernels; dispatch table extraction; partial evaluation for close-hook reachability'),
 }
 REASONS = {}
 DEFAULT_REASON = 'check not built yet (work in progress); see DESIGN.md'
